@@ -257,9 +257,61 @@ def r6(F, rep, rid="C14-R6"):
         raise AnalysisBroken("%s: only %d failure returns found in record readers" % (rid, n))
 
 
+def r7(F, rep):
+    rep.rule("C14-R7", "recovery code is reachable: in the peer-file readers of the multiple-walker code no branch is guarded "
+                       "by the negation of a stream-state test that dominates it (`if (is.is_open()) { ... if (!is.is_open()) "
+                       "{recover} }`) unless the stream is re-opened or closed in between -- such a branch can never run, and the "
+                       "situation it was written for (a peer that overwrote its file) goes unhandled")
+    n = 0
+    for f in F.funcs.values():
+        if f.cls != "colvarbias_meta" or not f.cfg.ok or "replica" not in f.name:
+            continue
+        for s in f.walk():
+            if s["k"] != "IfStmt":
+                continue
+            cs = s["c"]
+            cond = cs[1] if len(cs) == 4 else cs[0]
+            if cond is None:
+                continue
+            c = X.strip(cond)
+            if not (c["k"] == "UnaryOperator" and c["op"] == "!"):
+                continue
+            inner = X.strip(X.kids(c)[0])
+            if inner["k"] != "CXXMemberCallExpr" or X.callee_name(inner) not in ("is_open", "good") or X.receiver(inner) is None:
+                continue
+            n += 1
+            k = X.key(inner, f)
+            rk = X.key(X.receiver(inner), f)
+            facts, gs = C.guard_facts(f, inner)
+            dominated = [cid for cid, pol in gs if pol and X.key(f.nodes[cid], f) == k and f.nodes[cid] is not inner]
+            dead = False
+            for cid in dominated:
+                # any open()/close()/seekg-with-failure... between? only open/close change is_open()
+                # open()/close() on the same stream inside the dominating branch and before this test (same iteration)
+                outer_if = None
+                for a in f.ancestors(f.nodes[cid]):
+                    if a["k"] == "IfStmt":
+                        outer_if = a
+                        break
+                changers = [d for d in X.calls(f, outer_if) if d["k"] == "CXXMemberCallExpr" and X.callee_name(d) in ("open", "close") and
+                            X.receiver(d) is not None and X.key(X.receiver(d), f) == rk and
+                            f.cfg.can_reach(d, inner) and not any(x is d for x in f.walk(s))] if outer_if is not None else []
+                changers = [d for d in changers if d.get("l", 0) <= inner.get("l", 0)]
+                if not changers:
+                    dead = True
+            rep.add("C14-R7", "%s|%s" % (f.q, X.re_strip(k)), f.loc(s), "%s: branch on `!%s` %s" % (
+                f.q, X.re_strip(k), "is nested in the same test being true with no open()/close() in between: it can never run" if dead
+                else "is reachable"), not dead,
+                detail="the recovery written for a peer that overwrote its hills file (reset the read position, re-read the state) "
+                       "never happens: the reader resumes at a stale offset", func=f.q)
+    if n < 1:
+        raise AnalysisBroken("no stream-state recovery branch found in the replica readers")
+
+
 def run(F, rep, tier):
     r1(F, rep)
     r2_r3(F, rep)
     r4(F, rep)
     r5(F, rep)
     r6(F, rep)
+    r7(F, rep)
